@@ -8,6 +8,7 @@
    value carrying given data; lib_supports: documented limits; tdepth; tree_of). *)
 From Coq Require Import List NArith ZArith Lia Bool.
 From Verif Require Import Base.Outcome Wire.Item Gen.Consts Wire.CborFloat Wire.Cbor C10.CborSpec C10.CborConv Wire.CborProofs Wire.CborTime Wire.CborEnc Wire.CborDepth Wire.CborTotal Wire.CborDepthErr.
+From Verif Require Import Wire.CborVU Wire.CborVUProofs Wire.CborUtf8 Wire.CborVUEnc Wire.CborDup Wire.CborDupProofs.
 From Verif Require Gen.Leaf2 C10.LeafTie.
 Import ListNotations.
 Open Scope N_scope.
@@ -71,6 +72,159 @@ Example C10_cbor_text_chunks_nonvacuous :
   /\ utf8_valid [97; 97; 97; 195] = false /\ existsb (eqbl s) (texts_upto 8) = false
   /\ existsb (eqbl [97; 97; 97; 195; 169; 97; 226; 130; 172]) (texts_upto 8) = true /\ N.of_nat (length (texts_upto 8)) = 87381.
 Proof. vm_compute. repeat split. Qed.
+
+(* the same, in general: for EVERY well-formed UTF-8 text, of any length, every chunk the encoder cuts it into under
+   IndefiniteLength is well-formed UTF-8 (Wire/CborUtf8.v: cutting well-formed UTF-8 where a character starts leaves two
+   well-formed halves; a rune start is found within 4 bytes, and the chunk length is at least 4) *)
+Theorem C10_cbor_text_chunks_utf8 : forall (O : eopts) (s : list N),
+  eo_str2raw O = false -> utf8_valid s = true -> chunks_utf8 (tree_of O (IStr s)) = true.
+Proof. exact text_chunks_general. Qed.
+Print Assumptions C10_cbor_text_chunks_utf8.
+
+(* ---- DecodeOptions.ValidateUnicode, destination interface{} ----
+   Model: Wire/CborVU.v, [dec_naked_vu vu D] = the decoder of Wire/Cbor.v with one more option (the shared dopts record
+   is left alone).  With the option every chunk of an indefinite-length TEXT string is validated as it is read (in every
+   caller of DecodeBytes: text values, tag 0, tags 2 / 3) and DecodeStringAsBytes validates the whole once more (text
+   values and map keys of major type 3, the content of tag 0 whatever its major type); byte strings are never validated,
+   also when RawToString or kMap turn them into Go strings.  Tied to cbor.go by harness/cmd/wirecbor stream vu. *)
+
+(* with the option off the extended model is the model the other theorems are about *)
+Theorem C10_cbor_vu_off : forall (D : dopts) (f : nat) (b : list N), dec_naked_vu false D f b = dec_naked D f b.
+Proof. exact vu_off. Qed.
+Print Assumptions C10_cbor_vu_off.
+
+(* for EVERY input, fuel and option vector: the option only rejects -- the run with it is the run without it, or the
+   validation error (class "other"); hence it never changes a value and never runs out of fuel [fuel_for b] *)
+Theorem C10_cbor_vu_only_rejects : forall (D : dopts) (f : nat) (b : list N),
+  dec_naked_vu true D f b = dec_naked D f b \/ dec_naked_vu true D f b = Err EOther.
+Proof. exact vu_rel. Qed.
+Print Assumptions C10_cbor_vu_only_rejects.
+
+Theorem C10_cbor_vu_total : forall (vu : bool) (D : dopts) (b : list N), dec_naked_vu vu D (fuel_for b) b <> OutOfFuel.
+Proof. exact vu_total. Qed.
+Print Assumptions C10_cbor_vu_total.
+
+(* (b) soundness, for EVERY input and fuel: an Ok result holds no ill-formed text in value position -- top level, array
+   elements, map values, tag contents ([vals_utf8]).  Two documented exemptions, both byte strings (never text on the
+   wire): RawToString (premise) and map keys, which kMap converts from []byte to string (a TEXT key is validated:
+   C10_cbor_vu_in / the examples below; the item alone does not tell the two apart, so [vals_utf8] skips keys). *)
+Theorem C10_cbor_vu_sound : forall (D : dopts) (f : nat) (b : list N) (i : item) (rest : list N),
+  do_raw2str D = false -> dec_naked_vu true D f b = Ok (i, rest) -> vals_utf8 i = true.
+Proof. exact vu_sound. Qed.
+Print Assumptions C10_cbor_vu_sound.
+
+(* IN under the option: every well-formed serialisation of a supported item (any head width, definite or indefinite,
+   any chunking) whose text strings -- each chunk and each whole, map keys included, and the content of tag 0 -- are
+   well-formed UTF-8 ([wtexts_utf8]) is accepted, with the value C10_cbor_in_t assigns *)
+Theorem C10_cbor_vu_in : forall (D : dopts) (t : wtree) (rest : list N),
+  twf t -> lib_supports_t D t -> (tdepth_t D t < maxdepth D)%Z -> wtexts_utf8 t = true ->
+  dec_naked_vu true D (fuel_for (ser t ++ rest)) (ser t ++ rest) = Ok (go_of_t D (data_of t), rest).
+Proof. exact vu_in. Qed.
+Print Assumptions C10_cbor_vu_in.
+
+(* (a) every encoder output for an item whose text leaves (map keys included; the content of a tag 0 counts as text) are
+   well-formed UTF-8 still decodes to the same item with the option on -- for every encoder option vector,
+   IndefiniteLength included (the chunks are cut at code point boundaries since F10-4) *)
+Theorem C10_cbor_vu_accepts : forall (O : eopts) (D : dopts) (i : item) (rest : list N),
+  wf i -> plain i -> lib_supports_t D (tree_of O i) -> (tdepth_t D (tree_of O i) < maxdepth D)%Z ->
+  text_ok i = true ->
+  dec_naked_vu true D (fuel_for (enc O i ++ rest)) (enc O i ++ rest) = Ok (norm_t O D i, rest).
+Proof. exact vu_accepts. Qed.
+Print Assumptions C10_cbor_vu_accepts.
+
+(* non-vacuity: "é" as text / cut inside the character (whole well-formed, chunks not) / cut at the boundary;
+   ill-formed text as a map key is rejected, the same bytes as a byte-string key come back as a Go string;
+   RawToString; tag 2 over chunked text; the encoder's chunks of a 15-byte text under IndefiniteLength are accepted *)
+Example C10_cbor_vu_nonvacuous :
+  let D := mkdo false false false 0 in
+  dec_naked_vu true D 20 [0x62; 0xc3; 0xa9] = Ok (IStr [0xc3; 0xa9], []) /\
+  dec_naked_vu true D 20 [0x7f; 0x61; 0xc3; 0x61; 0xa9; 0xff] = Err EOther /\
+  dec_naked_vu false D 20 [0x7f; 0x61; 0xc3; 0x61; 0xa9; 0xff] = Ok (IStr [0xc3; 0xa9], []) /\
+  dec_naked_vu true D 20 [0x7f; 0x62; 0xc3; 0xa9; 0x61; 0x61; 0xff] = Ok (IStr [0xc3; 0xa9; 0x61], []) /\
+  dec_naked_vu true D 20 [0xa1; 0x61; 0xff; 0x01] = Err EOther /\
+  dec_naked_vu true D 20 [0xa1; 0x41; 0xff; 0x01] = Ok (IMap [(IStr [0xff], IUint 1)], []) /\
+  dec_naked_vu true (mkdo false true false 0) 20 [0x41; 0xff] = Ok (IStr [0xff], []) /\
+  dec_naked_vu true D 20 [0xc2; 0x7f; 0x61; 0xff; 0xff] = Err EOther /\
+  dec_naked_vu true D 20 [0xed; 0xa0; 0x80] <> Ok (IStr [0xed; 0xa0; 0x80], []) /\
+  dec_naked_vu true D 20 [0x63; 0xed; 0xa0; 0x80] = Err EOther /\
+  (let O := mkeo true false false false in
+   let i := IMap [(IStr [195; 169], IArr [IStr [97; 97; 97; 195; 169; 97; 97; 97; 195; 169; 97; 97; 97; 195; 169]])] in
+   wf i /\ plain i /\ text_ok i = true /\
+   dec_naked_vu true D (fuel_for (enc O i)) (enc O i) = Ok (i, [])).
+Proof.
+  cbv zeta. repeat apply conj; try (vm_compute; reflexivity); try (vm_compute; discriminate).
+  all: cbn; unfold bytes_ok; repeat (apply conj || apply Forall_cons || apply Forall_nil || lia || exact I).
+Qed.
+
+(* ---- maps with repeated keys decoded into interface{} ----
+   Model: Wire/CborDup.v.  The base model answers "unsupported" at a repeated key; [dec_naked_dup] is the decoder of a
+   handle with MapValueReset (or InterfaceReset): the entries are read as they come ([dec_naked_dup_raw]) and assigned
+   to a Go map ([map_view], at every nesting level): an entry whose key compares equal (Go ==) to an earlier one
+   replaces it, key object and value.  (Both options off: the later value is decoded INTO the earlier one -- typed
+   decoding in the generic layer, not modelled.)  Tied to the code by harness/cmd/wirecbor stream dup. *)
+
+(* the extension reads what the base model reads, except where that one gives up *)
+Theorem C10_cbor_dup_extends : forall (D : dopts) (f : nat) (b : list N),
+  dec_naked_dup_raw D f b = dec_naked D f b \/ dec_naked D f b = Err EUnsupported.
+Proof. exact dup_rel. Qed.
+Print Assumptions C10_cbor_dup_extends.
+
+(* where the base model answers Ok, the extension gives the same value (the base model never returns a repeated key,
+   and the view of a value without repeated keys is the value); every error but "unsupported" carries over *)
+Theorem C10_cbor_dup_agrees : forall (D : dopts) (f : nat) (b : list N) (i : item) (rest : list N),
+  dec_naked D f b = Ok (i, rest) -> dec_naked_dup D f b = Ok (i, rest).
+Proof. exact dup_agrees. Qed.
+Print Assumptions C10_cbor_dup_agrees.
+
+Theorem C10_cbor_dup_agrees_err : forall (D : dopts) (f : nat) (b : list N) (e : eclass),
+  dec_naked D f b = Err e -> e <> EUnsupported -> dec_naked_dup D f b = Err e.
+Proof. exact dup_agrees_err. Qed.
+Print Assumptions C10_cbor_dup_agrees_err.
+
+(* IN with repeated keys: every well-formed serialisation of a supported item -- [lib_supports_dup] is lib_supports_t
+   without "the keys of a map are pairwise different" -- decodes to the Go value of the data RFC 8949 assigns *)
+Theorem C10_cbor_dupkeys : forall (D : dopts) (t : wtree) (rest : list N),
+  twf t -> lib_supports_dup D t -> (tdepth_t D t < maxdepth D)%Z ->
+  dec_naked_dup D (fuel_for (ser t ++ rest)) (ser t ++ rest) = Ok (map_view (go_of_t D (data_of t)), rest).
+Proof. exact dup_in. Qed.
+Print Assumptions C10_cbor_dupkeys.
+
+(* the Go map, for ANY list of entries: a lookup finds the value, and the key object, of the LAST entry whose key
+   compares equal; the keys are pairwise different; assigning again changes nothing.  (Go == on hashable keys is
+   symmetric and transitive: key_eqb_sym / key_eqb_trans in Wire/CborDupProofs.v; NaN equals nothing, itself included.) *)
+Theorem C10_cbor_dupkeys_last_wins : forall (l : list (item * item)) (k : item),
+  lookup k (assign_all l) = last_value k l /\ lookup_key k (assign_all l) = last_key k l.
+Proof. intros l k. split; [exact (view_last_wins l k)|exact (view_last_key l k)]. Qed.
+Print Assumptions C10_cbor_dupkeys_last_wins.
+
+Theorem C10_cbor_dupkeys_distinct : forall (l : list (item * item)),
+  distinct_keys (assign_all l) /\ assign_all (assign_all l) = assign_all l.
+Proof. intros l. split; [exact (view_distinct l)|exact (view_idem l)]. Qed.
+Print Assumptions C10_cbor_dupkeys_distinct.
+
+(* non-vacuity: {1: [1,2], 1: [3]}; {1:2, 3:4, 1:5}; a text key and a byte-string key with the same bytes are one key;
+   -0.0 then +0.0: one key, and it is the LATER key object (+0.0) the map holds; two NaN keys stay two entries;
+   the base model gives up on each of the first four *)
+Example C10_cbor_dupkeys_nonvacuous :
+  let D := mkdo false false false 0 in
+  dec_naked_dup D 50 [0xa2; 0x01; 0x82; 0x01; 0x02; 0x01; 0x81; 0x03] = Ok (IMap [(IUint 1, IArr [IUint 3])], []) /\
+  dec_naked D 50 [0xa2; 0x01; 0x82; 0x01; 0x02; 0x01; 0x81; 0x03] = Err EUnsupported /\
+  dec_naked_dup D 50 [0xa3; 0x01; 0x02; 0x03; 0x04; 0x01; 0x05] = Ok (IMap [(IUint 1, IUint 5); (IUint 3, IUint 4)], []) /\
+  dec_naked_dup D 50 [0xa2; 0x61; 0x61; 0x01; 0x41; 0x61; 0x02] = Ok (IMap [(IStr [97], IUint 2)], []) /\
+  dec_naked_dup D 50 [0xa2; 0xf9; 0x80; 0x00; 0x01; 0xf9; 0x00; 0x00; 0x02] = Ok (IMap [(IF64 0, IUint 2)], []) /\
+  dec_naked_dup D 50 [0xa2; 0xf9; 0x7e; 0x00; 0x01; 0xf9; 0x7e; 0x00; 0x02]
+    = Ok (IMap [(IF64 9221120237041090560, IUint 1); (IF64 9221120237041090560, IUint 2)], []) /\
+  (let t := TMapI [(TUint W1 1, TArr W0 [TUint W0 1]); (TText W0 [97], TUint W0 2); (TUint W0 1, TMap W0 [(TBytes W0 [97], TSimple 20); (TText W1 [97], TSimple 21)])] in
+   twf t /\ lib_supports_dup D t /\ ~ lib_supports_t D t /\
+   map_view (go_of_t D (data_of t)) = IMap [(IUint 1, IMap [(IStr [97], IBool true)]); (IStr [97], IUint 2)]).
+Proof.
+  cbv zeta. split; [|split; [|split; [|split; [|split; [|split]]]]]; try (vm_compute; reflexivity).
+  split; [|split; [|split]].
+  - cbn. unfold bytes_ok. repeat (apply conj || apply Forall_cons || apply Forall_nil || lia || exact I || reflexivity).
+  - cbn. unfold keys_hash. repeat (apply conj || apply Forall_cons || apply Forall_nil || lia || exact I || reflexivity || discriminate).
+  - intros [_ [Hk _]]. vm_compute in Hk. destruct Hk as (_ & _ & _ & _ & _ & H & _). discriminate H.
+  - vm_compute. reflexivity.
+Qed.
 
 (* a RawExt carrying Data is the tag followed by Data verbatim: well-formed exactly when Data is *)
 Theorem C10_cbor_ext : forall (O : eopts) (t : N) (t' : wtree),
